@@ -28,6 +28,24 @@ def generate(rng, seed, index, tier):
     fam = str(rng.choice(["infeasible", "unbounded", "degenerate", "qp", "nlp"], p=[0.3, 0.25, 0.1, 0.2, 0.15]))
     spec, x0, y0 = gen.gen_problem(rng, fam)
     x0 = gen.magnify(rng, spec, x0, p=0.1)
+    nearly = fam in ("qp", "degenerate") and rng.random() < 0.25
+    if nearly:
+        # many copies of one equation whose right-hand sides disagree by a fraction of the tolerance: every
+        # row can be met within opt_tol, although no point meets them exactly (the violation measure is per row)
+        import numpy as np
+
+        n = spec["n"]
+        mm = int(rng.integers(4, 8))
+        a = np.round(rng.normal(size=n), 2)
+        if not np.any(a):
+            a[0] = 1.0
+        a = a / np.abs(a).max()  # largest coefficient 1: a unit step changes the row by about one
+        r = float(np.round(a @ np.clip(np.zeros(n), spec["xl"], spec["xu"]), 3))
+        amp = float(rng.choice([0.55, 0.8, 0.95])) * 1e-6
+        rhs = np.array([r + amp * (1 if i % 2 else -1) for i in range(mm)])
+        spec.update(m=mm, A=np.tile(a, (mm, 1)), B=np.zeros((mm, n)), b=np.zeros(mm), cl=rhs.copy(), cu=rhs.copy(), a=np.zeros(n), dom=None, expo=None, family="nearly-consistent")
+        spec.pop("magnified", None)
+        y0 = np.zeros(mm)
     kw = gen.gen_params(rng, spec, x0, y0, p_knob=0.45, reporting=False, globalized=False, numeric=0.15)
     kw["iteration_limit"] = int(rng.choice([0, 1, 2, 3, 10, 30, 200, 600], p=[0.03, 0.04, 0.04, 0.09, 0.2, 0.25, 0.25, 0.1]))
     clock = gen.gen_clock(rng, n=3000, kind=str(rng.choice(["const", "tick", "random", "stall-jump"], p=[0.15, 0.2, 0.3, 0.35])))
@@ -43,7 +61,11 @@ def generate(rng, seed, index, tier):
     if fam == "unbounded" and rng.random() < 0.5:
         kw["obj_lower_limit"] = float(rng.choice([-1e3, -1e6]))
     kw["display_interval"] = float(rng.choice([0.1, 1e18]))
-    if rng.random() < 0.3:
+    if nearly:
+        for k_ in ("opt_tol", "scaling_type", "scaling", "scaling_primal", "scaling_dual"):
+            kw.pop(k_, None)
+        kw["iteration_limit"] = int(rng.choice([200, 600]))
+    if rng.random() < 0.3 and not nearly:
         # the three tolerances of the status tests are independent parameters
         kw["local_infeas_tol"] = float(rng.choice([1e-10, 1e-8, 1e-6, 1e-4]))
         kw["active_tol"] = float(rng.choice([1e-10, 1e-8, 1e-5, 1e-3]))
